@@ -30,6 +30,9 @@ META = {
 }
 
 
+ORDMIN = [0]     # run parameter ordmin used by the carriers of the current job
+
+
 class Ev:
     def __init__(self, **kw):
         self.__dict__.update(kw)
@@ -52,7 +55,8 @@ def carrier(W, plot, table=None, freq=None):
     if table is not None:
         algo.result.Fn_poles = table
         algo.result.Lab = np.zeros(table.shape, dtype=int)
-        algo.run_params.ordmin, algo.run_params.ordmax = 0, table.shape[1] - 1
+        # non-default ordmin: the pole tables still start at column 0 = order 0
+        algo.run_params.ordmin, algo.run_params.ordmax = ORDMIN[0], table.shape[1] - 1
     if freq is not None:
         algo.result.freq = freq
         algo.result.S_val = None
@@ -171,6 +175,10 @@ def jobs(tier):
             for kind in (1, 2, 3):
                 out.append({"ob": "O1" if kind == 1 else "O2",
                             "cfg": {"plot": "FDD", "nf": nf, "pre_inds": list(inds), "button": kind}})
+    for plot in ("SSI", "pLSCF"):
+        for ords in ((), (1,), (2, 0)):
+            out.append({"ob": "O1", "cfg": {"plot": plot, "shape": list(shp), "pre_orders": list(ords), "button": 1, "ordmin": 1}})
+        out.append({"ob": "O3", "cfg": {"plot": plot, "shape": [2, 3], "seq": ["press", "b1", "b1"], "ordmin": 1}})
     out.append({"ob": "O2", "cfg": {"plot": "SSI", "keys": True}})
     kinds = ["b1", "b2", "b3", "press", "release"]
     for n in range(1, hist + 1):
@@ -192,6 +200,7 @@ def jobs(tier):
 
 def run(job, tier):
     cfg = job["cfg"]
+    ORDMIN[0] = cfg.get("ordmin", 0)
     if job["ob"] in ("O1", "O2"):
         if cfg.get("keys"):
             return run_keys(cfg, tier)
@@ -298,6 +307,7 @@ def _real_carrier(plot, table=None, freq=None):
     algo.result, algo.run_params, algo.fs = _Obj(), _Obj(), 100.0
     if table is not None:
         algo.result.Fn_poles = table
+        algo.run_params.ordmin, algo.run_params.ordmax = ORDMIN[0], table.shape[1] - 1
     if freq is not None:
         algo.result.freq = freq
     c = object.__new__(sfp.SelFromPlot)
@@ -514,7 +524,7 @@ def run_history(cfg, tier):
         if table is not None:
             algo.result.Fn_poles = table
             algo.result.Lab = np.zeros(table.shape, dtype=int)
-            algo.run_params.ordmin, algo.run_params.ordmax = 0, table.shape[1] - 1
+            algo.run_params.ordmin, algo.run_params.ordmax = ORDMIN[0], table.shape[1] - 1
         else:
             algo.result.freq, algo.result.S_val = freq, None
         T = W.cls(sfp.SelFromPlot)
